@@ -17,7 +17,8 @@ def main(ctx):
             "samples": cov["od_samples"], "rule": cov["od_rule"]}
     cov2.update(cov)
     return vlib.finish(ctx, "model_checking", cov2, assumptions=[
-        "heights stay below the 3634300 switch of verifyOfflineProposing (the committee-based 75% rule is not reachable in a test chain)",
+        "the chain-level worlds stay below the 3634300 height switch of verifyOfflineProposing (legacy rule: more than half of the online identities); "
+        "the committee rule in force above it (three quarters of the round's step validators) is bound at detector level through the MC_OfflineThr case table",
         "no pools / delegations in the driven worlds (the validator registry under delegation is the subject of the C10 core check)",
         "a wait stands for a stretch of uneventful blocks: awake online identities are heard at its end through real votes",
     ])
